@@ -118,6 +118,11 @@ def check_network(case):
         net, equipment, _, _ = c.design(topo, eq)
     except (ConfigurationError, NetworkTopologyError, EquipmentConfigError) as exc:
         return {'status': 'rejected', 'tags': {f'design-rejected:{type(exc).__name__}': 1}}
+    # the bands of the built amplifiers are those their models declare in the equipment document
+    from checks.c07 import bands_vs_library
+    bad = bands_vs_library(list(net.nodes()), eq)
+    if bad:
+        v('amplifier-band-differs-from-library', bad[0])
     bands_all = []
     for n in net.nodes():
         if isinstance(n, Multiband_amplifier):
@@ -344,7 +349,7 @@ def main(rep, tier, seed):
         'identical) with pre-existing OCCUPIED/UNUSABLE marks. Non-trivial: OMS of one network differ in common band / '
         'maps differ in extent.')
     rep.assumptions += ['band edges on the 6.25 GHz grid are judged exactly; off-grid edges are skipped (none in this library)',
-                        'amplifier bands are read from the built elements (params.f_min/f_max)']
+                        'amplifier bands are read from the built elements (params.f_min/f_max) and cross-checked with the model entries of the equipment document']
     rep.require(rep.tags.get('unpaired-oms', 0) >= 10, 'no network with an OMS without opposite direction')
     rep.require(rep.tags.get('built', 0) + rep.tags.get('build-raised', 0) >= 20, 'fewer than 20 networks reached build_oms_list')
     rep.require(rep.tags.get('maps-with-unusable', 0) >= 1 or rep.tags.get('build-raised', 0) >= 1,
